@@ -293,36 +293,62 @@ func c14ExitCode(c *Check, a *Anchors) {
 	}
 	c.Decide(len(bad) == 0, "exit-code-visible", "stored-before-failing-return@"+name, body.Body.Pos(), fmt.Sprintf("the exit code is stored on all %d failing exit-status paths", n),
 		"the task body can stop after an exit-status command error without storing the exit code for the deferred commands: "+strings.Join(bad, " || "))
-	// runner: EXIT_CODE only when > 0
+	// runner: EXIT_CODE only when > 0 — in the runner itself or in the helper of the package that builds its extra variables;
+	// decided on the must-facts at the store: the code was tested `> 0`, or `!= 0` on an unsigned value
 	fb := a.DeferRunner
-	rinfo := fb.Info()
 	found := false
-	pm := parentMap(fb.Body)
-	inspectBody(fb.Body, func(nd ast.Node) bool {
-		as, ok := nd.(*ast.AssignStmt)
-		if !ok || len(as.Lhs) != 1 {
-			return true
+	cands := []*FuncBody{fb}
+	for _, call := range callsIn(fb, false) {
+		if fn, ok := callee(fb.Info(), call).(*types.Func); ok {
+			if h := c.P.DeclOf(fn); h != nil && h.Decl != nil && h.Pkg == fb.Pkg && h != a.CmdRunner && h != a.RunTask {
+				cands = append(cands, h)
+			}
 		}
-		ix, ok := ast.Unparen(as.Lhs[0]).(*ast.IndexExpr)
-		if !ok || !strings.Contains(exprStr(ix.Index), "EXIT_CODE") {
+	}
+	for _, h := range cands {
+		hinfo := h.Info()
+		var target *ast.AssignStmt
+		inspectBody(h.Body, func(nd ast.Node) bool {
+			if as, ok := nd.(*ast.AssignStmt); ok && len(as.Lhs) == 1 {
+				if ix, ok := ast.Unparen(as.Lhs[0]).(*ast.IndexExpr); ok && constText(hinfo, ix.Index) == `"EXIT_CODE"` {
+					target = as
+				}
+			}
 			return true
+		})
+		if target == nil {
+			continue
 		}
 		found = true
+		c.Fn(h)
+		var at Facts
+		f := NewFlow(c.P, h, func(call *ast.CallExpr, obj types.Object) string { return "" })
+		f.NoInline = true
+		f.AssignEffect = func(s *ast.AssignStmt, st Facts) {
+			if s == target {
+				at = st.clone()
+			}
+		}
+		f.Run()
 		guarded := false
-		for p := pm[as]; p != nil; p = pm[p] {
-			if ifs, ok := p.(*ast.IfStmt); ok && within(as, ifs.Body) {
-				ast.Inspect(ifs.Cond, func(m ast.Node) bool {
-					if be, ok := m.(*ast.BinaryExpr); ok && be.Op == token.GTR && constIs(rinfo, be.Y, "0") {
-						guarded = true
+		for k := range at {
+			if strings.HasPrefix(k, "gt0:") {
+				guarded = true
+			}
+			if strings.HasPrefix(k, "ne:") && strings.HasSuffix(k, "=0") {
+				// != 0 is > 0 for an unsigned exit code
+				inspectBody(h.Body, func(nd ast.Node) bool {
+					if be, ok := nd.(*ast.BinaryExpr); ok && (be.Op == token.EQL || be.Op == token.NEQ) && constIs(hinfo, be.Y, "0") {
+						if b, ok := typeOf(hinfo, be.X).Underlying().(*types.Basic); ok && b.Info()&types.IsUnsigned != 0 {
+							guarded = true
+						}
 					}
 					return true
 				})
 			}
 		}
-		_ = rinfo
-		c.Decide(guarded, "exit-code-visible", "inject-when-positive@"+fnDisplay(fb), as.Pos(), "EXIT_CODE injected under `> 0`", "EXIT_CODE is injected without the `> 0` test: a deferred command of a successful task would see an exit code")
-		return true
-	})
+		c.Decide(guarded, "exit-code-visible", "inject-when-positive@"+fnDisplay(fb), target.Pos(), "EXIT_CODE injected only when the code is > 0", "EXIT_CODE is injected without the code having been tested `> 0`: a deferred command of a successful task would see an exit code; must-facts: "+at.String())
+	}
 	if !found {
 		c.Bad("exit-code-visible", "inject-when-positive@"+fnDisplay(fb), fb.Decl.Pos(), "the deferred-command runner no longer injects EXIT_CODE")
 	}
